@@ -220,7 +220,7 @@ theorem tagsRemove_step {st st' : Store} {t t' : Option Slice} {k : String}
     | some arr =>
       rw [harr] at h
       simp only at h
-      cases hp : allPairs arr with
+      cases hp : keyedIdx arr 0 with
       | none => rw [hp] at h; cases h
       | some back =>
         rw [hp] at h
@@ -230,8 +230,13 @@ theorem tagsRemove_step {st st' : Store} {t t' : Option Slice} {k : String}
           | none => rw [hr] at h; cases h
           | some g =>
             rw [hr] at h
-            cases h
-            exact set_step (lt_of_getElem?_some harr)
+            simp only at h
+            cases hd : decodeAll arr g.back with
+            | none => rw [hd] at h; cases h
+            | some cs =>
+              rw [hd] at h
+              cases h
+              exact set_step (lt_of_getElem?_some harr)
         · cases h
 
 theorem tagsRemoveMany_step {ks : List String} : ∀ {st st' : Store} {t t' : Option Slice},
@@ -468,6 +473,53 @@ theorem mutate_step {st st' : Store} {f f' : Feat} {m : Mut}
             simp only [List.mem_append, mem_fp]
             rcases hx with h | h | h | h | h | h <;> simp [h]
       · cases h
+
+/-- the list-value mutators: on the store they are an in-place write of one Tag struct, or an `append` -/
+theorem mutateV_step {st st' : Store} {vals vals' : Vals} {f f' : Feat} {m : MutV}
+    (h : mutateV st vals f m = some (st', vals', f')) (hv : Valid st f) : Step (fp f) st st' (fp f') := by
+  have hsub : ∀ a ∈ addrs f.tags, a ∈ fp f := by intro a ha; simp [mem_fp, ha]
+  cases m with
+  | setTagAt k i e =>
+    simp only [mutateV, Option.map_eq_some_iff] at h
+    obtain ⟨r, hr, he⟩ := h
+    cases he
+    unfold tagsSetAt at hr
+    cases hc : cells st f.tags with
+    | none => rw [hc] at hr; cases hr
+    | some cs =>
+      rw [hc] at hr
+      simp only at hr
+      split at hr
+      · split at hr
+        · cases hr
+        · simp only [Option.map_eq_some_iff] at hr
+          obtain ⟨st2, hw, he⟩ := hr
+          cases he
+          exact lift_step hv (write_step hw) hsub (by intro a ha; exact Or.inl ha)
+      · simp only [Option.map_eq_some_iff] at hr
+        obtain ⟨a, ha, he⟩ := hr
+        cases he
+        exact lift_step hv (append_step (st' := a.1) (s' := a.2) ha) hsub (by fp_tac)
+  | setTagList k lit spare =>
+    simp only [mutateV, Option.map_eq_some_iff] at h
+    obtain ⟨r, hr, he⟩ := h
+    cases he
+    unfold tagsSetList at hr
+    simp only at hr
+    cases hc : cells st f.tags with
+    | none => rw [hc] at hr; cases hr
+    | some cs =>
+      rw [hc] at hr
+      simp only at hr
+      split at hr
+      · simp only [Option.map_eq_some_iff] at hr
+        obtain ⟨st2, hw, he⟩ := hr
+        cases he
+        exact lift_step hv (write_step hw) hsub (by intro a ha; exact Or.inl ha)
+      · simp only [Option.map_eq_some_iff] at hr
+        obtain ⟨a, ha, he⟩ := hr
+        cases he
+        exact lift_step hv (append_step (st' := a.1) (s' := a.2) ha) hsub (by fp_tac)
 
 /-! ### `Clone` allocates everything it returns -/
 
